@@ -342,7 +342,10 @@ Definition target (p : name) (m : outmode) : option name :=
   | OutDir d => Some (d ++ basename p)
   end.
 
-(** is_same_file on canonical names (no links in the model) *)
+(** is_same_file.  The model's names are FILES, not spellings: an out path that reaches the in
+    file through a symbolic link, a hard link or a '..' spelling is handed to the model as the
+    file it denotes (the harness resolves it with os.path.samefile / realpath), so "same file"
+    is equality of names here.  A symbolic link itself is an inert entry of the directory. *)
 Definition file_ops (k : kind) (pl : plan) (p : name) (m : outmode) : list op :=
   match target p m with
   | None => inplace_ops k pl p
